@@ -306,13 +306,19 @@ func c09real(r *rng.R, n int) {
 				if wk, err := bad.SignAndEncrypt(symMessage(5, 6), append([]byte(nil), raw...)); err == nil {
 					muts = append(muts, mutation{"wrong-keys", wk})
 				}
-				muts = append(muts, mutation{"unsecured", raw}, mutation{"none-again", append([]byte(nil), sec...)})
+				muts = append(muts, mutation{"unsecured", raw}, mutation{"replay", append([]byte(nil), sec...)})
+				sentOwn := false
 				for _, mu := range muts {
 					if len(mu.b) < 8 {
 						continue // not a UACP frame; the connection layer's business (C05)
 					}
 					b := fixSize(append([]byte(nil), mu.b...))
-					c := c09case{Name: "real", Policy: shortName(uri), Kind: kind, Mode: int(mode), Chunk: hx(b), Mut: mu.name, Same: bytes.Equal(b, sec)}
+					// the peer's chunk counts as its own only the first time it arrives: afterwards it is a replay
+					same := bytes.Equal(b, sec) && !sentOwn
+					if same {
+						sentOwn = true
+					}
+					c := c09case{Name: "real", Policy: shortName(uri), Kind: kind, Mode: int(mode), Chunk: hx(b), Mut: mu.name, Same: same}
 					peer.Write(b)
 					o := recvOne(sc, conn, 3*time.Second)
 					c.K, c.Data, c.Err = o.K, o.Body, o.Err
